@@ -145,7 +145,7 @@ func c03(w *core.World, r *core.Report) {
 	}
 
 	// ---- ERR-NONNIL
-	r.Rule("ERR-NONNIL", 2, "a validation failure is surfaced: on the HasErrors()==true outcome in replaceIntent every reachable return carries an error value that is not definitely nil (interprocedural definitely-nil summary: a function all of whose error returns are the nil constant), and in lowlevelTransactionSet the returned response is the one that received the per-intent Errors. Also: no result of errors.Join / fmt.Errorf / errors.New is discarded in pkg/types (a discarded error constructor is an error that can never be reported).")
+	r.Rule("ERR-NONNIL", 2, "a validation failure is surfaced: on the HasErrors()==true outcome in replaceIntent every reachable return carries an error value that is not definitely nil (interprocedural definitely-nil summary: a function all of whose error returns are the nil constant), and in lowlevelTransactionSet the returned response is the one that received the per-intent Errors. Also: no result of errors.Join / fmt.Errorf / errors.New is discarded in pkg/types (a discarded error constructor is an error that can never be reported), and ValidationResults.JoinErrors / JoinWarnings carry their accumulator round the loop over the intents (overwritten per iteration, the result is what the last intent of the map iteration contributed: nil if that one has no errors).")
 	for _, f := range []*ssa.Function{rep} {
 		valCalls := core.CallsTo(f, "tree.RootEntry.Validate")
 		if len(valCalls) != 1 {
@@ -205,6 +205,9 @@ func c03(w *core.World, r *core.Report) {
 			r.Check(used, "ERR-NONNIL", core.Site(f, "call %s", core.CalleeKey(c)), w.InstrPos(c), "result of an error constructor must be used")
 		}
 	}
+
+	// the fact "JoinErrors() is non-nil when HasErrors()" needs the errors of EVERY intent in the result
+	ruleJoinAccumulates(w, r, "ERR-NONNIL")
 
 	// ---- APPLY-SENDS (shared with C01)
 	r.Rule("APPLY-SENDS", 2, "Datastore.applyIntent returns success only after target.Target.Set was called with the tree it was given (dominance over every nil-error return). Decides: the deletes and updates a dry run reports from that tree are not silently withheld from the device by a shortcut in the apply step.")
